@@ -178,6 +178,81 @@ theorem gen_decompose_eq_model (d : List (V3 K)) :
 theorem gen_a12_to_pos_eq_model (B : M3 K) (v1 v2 : V3 K) (a1 a2 : K) :
     Gen.gen_a12_to_pos B v1 v2 a1 a2 = a12ToPos (cartOf v1 B) (cartOf v2 B) (a1, a2) := rfl
 
+/-- the linear solve of the source's `pos_to_a12` (basis columns `A1, A2, c / rn`, `c = A1 × A2`) against the model's
+    (rows `A1, A2, c`): same first two coefficients, third coefficient times `rn`. -/
+theorem solve_scaled_basis (A1 A2 p : V3 K) (rn : K) (hrn : rn ≠ 0) (h : V3.cross A1 A2 ≠ v3zero) :
+    M3.mulVec (M3.inv (M3.transpose ⟨A1, A2, (V3.cross A1 A2).map (fun t => t / rn)⟩)) p
+      = ⟨(posToA123 A1 A2 p).x, (posToA123 A1 A2 p).y, (posToA123 A1 A2 p).z * rn⟩ := by
+  have hD := det_basis_ne A1 A2 h
+  have hp : p = M3.vecMul (posToA123 A1 A2 p) ⟨A1, A2, V3.cross A1 A2⟩ := (vecMul_inv_cancel' p _ hD).symm
+  set a := posToA123 A1 A2 p with ha
+  have hdet : M3.det (M3.transpose ⟨A1, A2, (V3.cross A1 A2).map (fun t => t / rn)⟩) ≠ 0 := by
+    have : M3.det (M3.transpose ⟨A1, A2, (V3.cross A1 A2).map (fun t => t / rn)⟩) = M3.det ⟨A1, A2, V3.cross A1 A2⟩ / rn := by
+      simp only [M3.det, M3.transpose, V3.dot, V3.cross, V3.map]; field_simp; ring
+    rw [this]; exact div_ne_zero hD hrn
+  have hw : p = M3.mulVec (M3.transpose ⟨A1, A2, (V3.cross A1 A2).map (fun t => t / rn)⟩) ⟨a.x, a.y, a.z * rn⟩ := by
+    rw [hp]
+    ext <;> simp only [M3.mulVec, M3.transpose, M3.vecMul, V3.dot, V3.map] <;> field_simp
+  rw [hw, mulVec_inv_cancel _ _ hdet]
+
+theorem gen_pos_to_a12_eq_model (rn : K) (B : M3 K) (v1 v2 p : V3 K) (hrn : 0 < rn)
+    (h4 : (rn * rn) * (rn * rn) = V3.dot (V3.cross (cartOf v1 B) (cartOf v2 B)) (V3.cross (cartOf v1 B) (cartOf v2 B)))
+    (h : V3.cross (cartOf v1 B) (cartOf v2 B) ≠ v3zero) :
+    Gen.gen_pos_to_a12 rn B v1 v2 p = posToA12? (cartOf v1 B) (cartOf v2 B) p := by
+  simp only [Gen.gen_pos_to_a12, posToA12?]
+  rw [show M3.vecMul v1 B = cartOf v1 B from rfl, show M3.vecMul v2 B = cartOf v2 B from rfl,
+    solve_scaled_basis _ _ p rn (ne_of_gt hrn) h]
+  set a := posToA123 (cartOf v1 B) (cartOf v2 B) p
+  set M := maxK 1 (maxK (absK a.x) (absK a.y)) with hM
+  have hM0 : (0 : K) ≤ M := by
+    have : (1 : K) ≤ M := by simp only [hM, maxK]; split_ifs <;> linarith
+    linarith
+  have htol : (0 : K) ≤ ((1 : Nat) : K) / ((1000000 : Nat) : K) := by positivity
+  have key : absK (a.z * rn) ≤ ((1 : Nat) : K) / ((1000000 : Nat) : K) * M ↔
+      a.z * a.z * (a.z * a.z) * V3.dot (V3.cross (cartOf v1 B) (cartOf v2 B)) (V3.cross (cartOf v1 B) (cartOf v2 B))
+        ≤ tolPlane * tolPlane * (tolPlane * tolPlane) * (M * M * (M * M)) := by
+    rw [absK_eq, ← h4]
+    have hu : (0 : K) ≤ |a.z * rn| := abs_nonneg _
+    have hv : (0 : K) ≤ ((1 : Nat) : K) / ((1000000 : Nat) : K) * M := mul_nonneg htol hM0
+    rw [mul_self_le_mul_self_iff hu hv, mul_self_le_mul_self_iff (mul_self_nonneg _) (mul_self_nonneg _), abs_mul_abs_self]
+    have e1 : a.z * rn * (a.z * rn) * (a.z * rn * (a.z * rn)) = a.z * a.z * (a.z * a.z) * (rn * rn * (rn * rn)) := by ring
+    have e2 : ((1 : Nat) : K) / ((1000000 : Nat) : K) * M * (((1 : Nat) : K) / ((1000000 : Nat) : K) * M)
+        * (((1 : Nat) : K) / ((1000000 : Nat) : K) * M * (((1 : Nat) : K) / ((1000000 : Nat) : K) * M))
+        = tolPlane * tolPlane * (tolPlane * tolPlane) * (M * M * (M * M)) := by
+      simp only [tolPlane, Nat.cast_one]; ring
+    rw [e1, e2]
+  by_cases hk : absK (a.z * rn) ≤ ((1 : Nat) : K) / ((1000000 : Nat) : K) * M
+  · have hin : inPlaneOk (cartOf v1 B) (cartOf v2 B) a = true := by
+      simp only [inPlaneOk, decide_eq_true_eq]; exact key.mp hk
+    rw [if_pos hk, if_pos hin]
+  · have hin : ¬ inPlaneOk (cartOf v1 B) (cartOf v2 B) a = true := by
+      simp only [inPlaneOk, decide_eq_true_eq]; exact fun hh => hk (key.mpr hh)
+    rw [if_neg hk, if_neg hin]
+/-- non-vacuity: the unit square in the identity box (`c = (0, 0, 1)`, `rn = 1`); a lifted position is refused. -/
+example : Gen.gen_pos_to_a12 (K := ℚ) 1 M3.one ⟨1, 0, 0⟩ ⟨0, 1, 0⟩ ⟨1/4, 1/2, 0⟩ = some (1/4, 1/2) ∧
+    Gen.gen_pos_to_a12 (K := ℚ) 1 M3.one ⟨1, 0, 0⟩ ⟨0, 1, 0⟩ ⟨1/4, 1/2, 1/1000⟩ = none := by decide +kernel
+
+/-! ### arctangent profiles -/
+
+theorem gen_pn_arctan_disregistry_eq_model (atan : K → K) (pi : K) (x : List K) (b : V3 K) (center hw : K) (normalize shift : Bool)
+    (normB normLast : K) :
+    Gen.gen_pn_arctan_disregistry atan pi x b center hw normalize shift normB normLast
+      = pnArctanDisregistry atan pi x b center hw normalize shift normB normLast := by
+  have hraw : ((((x.map (fun t => t - center)).map (fun t => t / hw)).map atan).map (fun t => V3.smul t (b.map (fun t => t / pi)))).map
+        (fun v => v + b.map (fun t => t / ((2 : Nat) : K)))
+      = x.map (fun xi => V3.smul (atan ((xi - center) / hw)) (b.map (· / pi)) + b.map (· / two)) := by
+    simp only [List.map_map, two]; rfl
+  unfold Gen.gen_pn_arctan_disregistry pnArctanDisregistry
+  simp only [hraw]
+  cases normalize <;> cases shift <;> simp only [Bool.false_eq_true, if_false, if_true, List.map_map, two] <;> congr 1
+
+theorem gen_pn_arctan_disldensity_eq_model (pi : K) (x : List K) (b : V3 K) (center hw : K) (normalize : Bool) (normB normInt : K) :
+    Gen.gen_pn_arctan_disldensity pi x b center hw normalize normB normInt
+      = pnArctanDisldensity pi x b center hw normalize normB normInt := by
+  unfold Gen.gen_pn_arctan_disldensity pnArctanDisldensity
+  cases normalize <;> simp only [Bool.false_eq_true, if_false, if_true, List.map_map] <;> congr 1
+
+
 section floor
 variable [FloorRing K]
 
